@@ -19,9 +19,8 @@
 //   - ring.go: lock analysis (LockHeld: helpers, closures, deferred calls and
 //     acquire/release wrappers are entry-held by fixpoint over their call
 //     sites; GuardTable: accesses, also through pointer parameters), CondOver.
-//   - transfer.go, clamp.go: value-flow rules (package flow) for the offset
-//     helper arguments / transfer window and for the clamp form of
-//     roffset / woffset.
+//   - clamp.go: roffset / woffset on traces: result 0 is proved to be the
+//     minimum of blen and the ring bounds, result 1 is pos % size.
 //   - wait.go: EvalUnder / Infeasible (assumption-based edge feasibility for
 //     cfgq path queries; also used by C12, C13).
 package ring
@@ -593,6 +592,83 @@ func GuardTable(c *core.Ctx, rule, pkgPath, typ, mu string, guarded []string) (i
 			return true
 		})
 	}
+	// `slot := &x.f` bound once to a local of the same function whose every use
+	// is `*slot`: the accesses are the dereferences. Any other `&x.f` is an
+	// address computation, not an access: it is fine under the lock; outside
+	// the lock the rule cannot see where the pointer is used (UNDECIDED).
+	addrOf := map[*ast.SelectorExpr]bool{}
+	seenPtr := map[types.Object]bool{}
+	for _, b := range bodies {
+		if b.Lit != nil {
+			continue
+		}
+		ast.Inspect(b.Decl.Body, func(n ast.Node) bool {
+			if u, ok := n.(*ast.UnaryExpr); ok && u.Op == token.AND {
+				if se, ok := ast.Unparen(u.X).(*ast.SelectorExpr); ok && isGuarded[se.Sel.Name] && core.IsFieldNamed(info, se, typ, se.Sel.Name) {
+					addrOf[se] = true
+				}
+			}
+			return true
+		})
+		ast.Inspect(b.Decl.Body, func(n ast.Node) bool {
+			id, ok := n.(*ast.Ident)
+			if !ok || info.Uses[id] == nil || seenPtr[info.Uses[id]] {
+				return true
+			}
+			d := pat.DefOf(info, id)
+			if d == nil {
+				return true
+			}
+			seenPtr[info.Uses[id]] = true
+			u, ok := ast.Unparen(d).(*ast.UnaryExpr)
+			if !ok || u.Op != token.AND {
+				return true
+			}
+			se, ok := ast.Unparen(u.X).(*ast.SelectorExpr)
+			if !ok || !addrOf[se] || exempt[se] {
+				return true
+			}
+			obj := info.Uses[id]
+			starOf := map[*ast.Ident]*ast.StarExpr{}
+			ast.Inspect(b.Decl.Body, func(m ast.Node) bool {
+				if st, ok := m.(*ast.StarExpr); ok {
+					if x, ok := ast.Unparen(st.X).(*ast.Ident); ok {
+						starOf[x] = st
+					}
+				}
+				return true
+			})
+			okUse, inLit := true, 0
+			var stars []*ast.StarExpr
+			var walk func(m ast.Node) bool
+			walk = func(m ast.Node) bool {
+				switch x := m.(type) {
+				case *ast.FuncLit:
+					inLit++
+					ast.Inspect(x.Body, walk)
+					inLit--
+					return false
+				case *ast.Ident:
+					if info.Uses[x] == obj {
+						if st := starOf[x]; st != nil && inLit == 0 {
+							stars = append(stars, st)
+						} else {
+							okUse = false
+						}
+					}
+				}
+				return true
+			}
+			ast.Inspect(b.Decl.Body, walk)
+			if okUse && len(stars) > 0 {
+				exempt[se] = true
+				for _, st := range stars {
+					derefs[b.Decl] = append(derefs[b.Decl], access{pos: st.Pos(), field: se.Sel.Name, node: st})
+				}
+			}
+			return true
+		})
+	}
 	for bi, b := range bodies {
 		var root ast.Node = b.Decl.Body
 		if b.Lit != nil {
@@ -645,6 +721,10 @@ func GuardTable(c *core.Ctx, rule, pkgPath, typ, mu string, guarded []string) (i
 			seenField[a.field]++
 			perField[a.field]++
 			key := fmt.Sprintf("%s/%s#%d", b.Name, a.field, perField[a.field])
+			if a.sel != nil && addrOf[a.sel] && !held[a.node] {
+				c.Undecidedf(rule, key, a.pos, "the address of %s.%s is taken outside %s.%s and the rule cannot see where the pointer is dereferenced", typ, a.field, typ, mu)
+				continue
+			}
 			c.Check(rule, key, a.pos, held[a.node],
 				fmt.Sprintf("access to %s.%s must execute with %s.%s held on every path (Lock dominates, no explicit Unlock in between; a helper counts as locked only if every call site holds the lock)", typ, a.field, typ, mu))
 		}
@@ -706,19 +786,6 @@ func CondOver(c *core.Ctx, rule, pkgPath, typ, cond, mu string) {
 	if n == 0 {
 		c.Undecidedf(rule, fmt.Sprintf("%s.%s", typ, cond), token.NoPos, "no construction of %s.%s found", typ, cond)
 	}
-}
-
-// ---------------------------------------------------------------------------
-// clamp form of roffset / woffset
-
-// ClampSpec describes a ring-index helper: results (maxlen, offset); maxlen
-// starts at uint64(<blen param>), offset is <pos> % size, and maxlen is
-// lowered to each of the clamp terms. Terms are written as patterns over the
-// parameter names given in Params (bound as metavariables _blen,_size,...).
-type ClampSpec struct {
-	Params []string // expected parameter order (names are roles, not matched by name)
-	Offset string   // role whose value modulo size is the offset, e.g. "rpos"
-	Clamps []string // patterns of the terms maxlen is lowered to, using _role metavariables and _offset
 }
 
 // ImplementersOf returns the named struct types of pkg whose pointer
